@@ -424,6 +424,7 @@ var pureLibPkgs = map[string]bool{
 	"github.com/ipfs/go-cid": true, "github.com/libp2p/go-libp2p-core/peer": true, "github.com/multiformats/go-multiaddr": true,
 	"github.com/multiformats/go-multihash": true, "math": true, "net/url": true, "encoding/hex": true, "encoding/base64": true,
 	"github.com/ipfs/go-datastore": true, "github.com/ipfs/go-path": true, "net/textproto": true,
+	"github.com/gorilla/mux": true, "github.com/libp2p/go-libp2p-core/host": true,
 }
 
 func (p *Program) isPureLib(fn *types.Func) bool {
@@ -444,6 +445,19 @@ func (p *Program) isPureLib(fn *types.Func) bool {
 	}
 	if path == "errors" {
 		return fn.Name() == "Is" || fn.Name() == "Unwrap"
+	}
+	if path == "net/http" {
+		// request accessors are deterministic functions of the request
+		if r := sig.Recv(); r != nil && strings.HasSuffix(r.Type().String(), "net/http.Request") {
+			switch fn.Name() {
+			case "BasicAuth", "Context", "FormValue", "UserAgent", "Referer", "Cookie", "Cookies":
+				return true
+			}
+		}
+		if r := sig.Recv(); r != nil && strings.HasSuffix(r.Type().String(), "net/http.Header") {
+			return fn.Name() == "Get" || fn.Name() == "Values"
+		}
+		return false
 	}
 	if !pureLibPkgs[path] {
 		return false
